@@ -269,6 +269,53 @@ func compareTx(tx *btc.Tx, rt *reftx.Tx, raw []byte, hashes bool, wtxidMayBeZero
 
 var memA, memB runtime.MemStats
 
+// routes: the other ways the library offers to obtain the numbers of the same accepted
+// transaction must agree with the reference (hence with each other and with
+// NewTx+SetHash(raw), which evalTx compares first):
+//   - NewTx, Tx.Raw set by the caller, SetHash(nil)
+//   - the transaction as second transaction of a block: NewBlock + BuildTxListExt(true)
+//     and (false), which take NoWitSize from NewTx's offsets and Size from the raw range
+var routeCb = (&reftx.Tx{Version: 1, In: []reftx.In{{Vout: 0xffffffff, Script: []byte{0x51, 0x51}, Sequence: 0xffffffff}}, Out: []reftx.Out{{Value: 1, Script: []byte{0x51}}}})
+
+func routes(raw []byte, rt *reftx.Tx, add func(k, w string)) {
+	pre := func(p string) func(k, w string) { return func(k, w string) { add(p+k, w) } }
+	if p := try("SetHash(nil)", func() {
+		tx2, n2 := btc.NewTx(raw)
+		if tx2 == nil || n2 != len(raw) {
+			add("route-sethash-nil/refused", "NewTx refuses its own consumed bytes")
+			return
+		}
+		tx2.Raw = raw
+		tx2.SetHash(nil)
+		compareTx(tx2, rt, raw, true, false, pre("route-sethash-nil/"))
+	}); p != "" {
+		add("panic/"+p, "panic in NewTx + SetHash(nil)")
+	}
+	cb := routeCb.Serialize(true)
+	blk := make([]byte, 80, 81+len(cb)+len(raw))
+	blk = append(append(append(blk, 2), cb...), raw...)
+	wantW := 4*81 + routeCb.Weight() + rt.Weight()
+	for _, dohash := range []bool{true, false} {
+		stage('b')
+		if p := try("BuildTxListExt", func() {
+			bl, err := btc.NewBlock(blk)
+			if err == nil {
+				err = bl.BuildTxListExt(dohash)
+			}
+			if err != nil || len(bl.Txs) != 2 || bl.Txs[1] == nil {
+				add("route-block/refused", fmt.Sprintf("a block holding the accepted transaction as its second transaction is refused (hashes=%v): %v", dohash, err))
+				return
+			}
+			compareTx(bl.Txs[1], rt, raw, dohash, false, pre("route-block/"))
+			if int(bl.BlockWeight) != wantW {
+				add("route-block/block-weight-mismatch", fmt.Sprintf("BlockWeight=%d want %d (hashes=%v)", bl.BlockWeight, wantW, dohash))
+			}
+		}); p != "" {
+			add("panic/"+p, "panic in NewBlock + BuildTxListExt on a block holding the accepted transaction")
+		}
+	}
+}
+
 // stage tells the parent which API is about to run (hang attribution): 'n' NewTx,
 // 't' TxSize, 'b' NewBlock/BuildTxListExt, 'v' VLen/VULe.
 var stage = func(c byte) {}
@@ -368,6 +415,7 @@ func evalTx(b []byte, cont []byte) (res caseResult) {
 				add("accept/consumed-mismatch", fmt.Sprintf("NewTx consumed %d bytes, reference %d", n, rn))
 			} else {
 				compareTx(tx, rt, b[:rn], true, false, add)
+				routes(in[:rn], rt, add)
 			}
 			res.Shape = shapeOf(len(rt.In), len(rt.Out), rt.HasWitness())
 		}
